@@ -10,6 +10,7 @@ import hashlib
 import json
 import os
 import random
+import zlib
 import subprocess
 import sys
 import time
@@ -137,9 +138,20 @@ def f_pysmt(f, names):
         return Symbol(names[f[1]])
     if t == "!":
         return Not(f_pysmt(f[1], names))
-    if t == "&":
-        return And(f_pysmt(f[1], names), f_pysmt(f[2], names))
-    return Or(f_pysmt(f[1], names), f_pysmt(f[2], names))
+    # a programmatically built formula may use n-ary connectives (the parser only builds binary ones): for about half of the nested
+    # same-operator formulas (decided by a process-independent checksum of the formula) the chain is flattened into one n-ary node
+    args = [f[1], f[2]]
+    if (f[1][0] == t or f[2][0] == t) and zlib.crc32(repr(f).encode()) % 2 == 0:
+        args = []
+        stack = [f[2], f[1]]
+        while stack:
+            x = stack.pop()
+            if x[0] == t:
+                stack += [x[2], x[1]]
+            else:
+                args.append(x)
+    sub = [f_pysmt(x, names) for x in args]
+    return And(*sub) if t == "&" else Or(*sub)
 
 
 NAME_STYLES = [
